@@ -78,6 +78,32 @@ theorem arrow_inside (base : List Comp) (p : List Char) (q : List Comp) (h : arr
     simp only [if_true] at h
     exact resolve_inside base p q h
 
+/-- **s3_key_under_prefix** — object storage: for EVERY path string the key requested lies under the table's prefix (the prefix, a
+slash, then the path with its leading slashes stripped — byte for byte). -/
+theorem s3_key_under_prefix (pref p : List Char) (h : pref ≠ []) : (pref ++ ['/']) <+: s3Key pref p := by
+  unfold s3Key
+  rw [if_neg h]
+  exact ⟨lstripSlash p, by simp⟩
+
+/-- **s3_key_literal** — nothing in the path is interpreted: two paths give the same key only when they are the same string after
+the leading slashes -/
+theorem s3_key_literal (pref p q : List Char) (h : s3Key pref p = s3Key pref q) : lstripSlash p = lstripSlash q := by
+  unfold s3Key at h
+  split at h
+  · exact h
+  · simpa using h
+
+/-- what the property excludes: normalising the joined key lets `..` climb out of the prefix into a neighbouring table -/
+theorem normalised_key_escapes :
+    s3KeyNormalised "wh/orders".toList "../customers/x".toList = "wh/customers/x".toList ∧
+    ¬ ("wh/orders/".toList <+: s3KeyNormalised "wh/orders".toList "../customers/x".toList) ∧
+    "wh/orders/".toList <+: s3Key "wh/orders".toList "../customers/x".toList := by
+  refine ⟨by decide +kernel, ?_, by decide +kernel⟩
+  intro h
+  have := List.isPrefixOf_iff_prefix.mpr h
+  revert this
+  decide +kernel
+
 /-- escaping spellings are rejected, not silently mapped to some other file (non-vacuity of the `none` branch) -/
 example : resolveLex [['s'], ['r']] "../r2/x".toList = none := by decide +kernel
 example : resolveLex [['s'], ['r']] "data/../../../etc".toList = none := by decide +kernel
